@@ -610,6 +610,45 @@ pub fn act_bankruptcy(sim: &Sim, ctx: &mut Ctx) -> Option<Tx> {
     ))
 }
 
+/// Slot-exhaustion drill (worlds with more banks than an account has slots): one user opens a
+/// small position in every bank of the group they do not hold yet; the 17th must be refused and
+/// must not disturb the 16 that exist.
+pub fn drill_fill_slots(sim: &mut Sim, ctx: &mut Ctx) -> Option<Tx> {
+    let (ui, gi, ma) = user_and_account(ctx)?;
+    if ctx.world.groups[gi].banks.len() < 12 {
+        return None;
+    }
+    let u = ctx.world.users[ui].clone();
+    let banks: Vec<BankInfo> = ctx.world.groups[gi].banks.clone();
+    sim.stats.fault("drill_fill_all_position_slots");
+    let mut last = None;
+    for b in banks.iter() {
+        let held = model::account_of(&sim.store, &ma)
+            .map(|a| active_balances(&a).iter().any(|x| x.bank_pk == b.keys.bank))
+            .unwrap_or(false);
+        if held {
+            continue;
+        }
+        let Some(ta) = u.tokens.get(&b.keys.mint).cloned() else { continue };
+        let bal = token_balance(&sim.store, &ta);
+        if bal < 4 {
+            continue;
+        }
+        let tx = Tx::one("user", ix::deposit(&b.keys, ma, u.authority, ta, ctx.rng.range(2, (bal / 64).max(3)), None));
+        if let Some(prev) = last.replace(tx) {
+            sim.apply(Event::Tx(prev));
+            if sim.violated() && sim.stop_on_violation {
+                return None;
+            }
+        }
+    }
+    let n = model::account_of(&sim.store, &ma).map(|a| active_balances(&a).len()).unwrap_or(0);
+    if n >= 16 {
+        sim.stats.fault("drill_all_16_slots_in_use");
+    }
+    last
+}
+
 /// Bankruptcy drill: an indebted account's collateral becomes worthless (oracle crash on every
 /// bank it holds deposits in) until Ref calls it bankrupt; the debt bank's insurance vault is
 /// donated to one of {nothing, a third of the debt, exactly the debt, twice the debt}; sometimes
@@ -1113,7 +1152,13 @@ pub fn step_mkt(sim: &mut Sim, ctx: &mut Ctx) {
     ];
     let choice = ctx.rng.pick_weighted(&weights);
     let tx: Option<Tx> = match choice {
-        0 => act_deposit(sim, ctx),
+        0 => {
+            if ctx.world.groups.iter().any(|g| g.banks.len() >= 12) && ctx.rng.chance(1, 4) {
+                drill_fill_slots(sim, ctx)
+            } else {
+                act_deposit(sim, ctx)
+            }
+        }
         1 => act_withdraw(sim, ctx),
         2 => act_borrow(sim, ctx),
         3 => act_repay(sim, ctx),
